@@ -40,6 +40,7 @@ const (
 	modeBefore     = 0 // fail without answering (write: the stream dies with the request pending)
 	modeAfter      = 1 // write: answer, then kill the stream; read/list/scan: part of the answer, then the status
 	modeCleanClose = 2 // write only: the handler returns OK (clean end of stream) with the request pending
+	modeStall      = 3 // write only: the answer (correct) is delayed by fakeCase.stall; the stream stays alive
 	injectForever  = 1 << 30
 )
 
@@ -208,6 +209,8 @@ type rpcRec struct {
 	failed bool // failed by the script
 	killed bool // write: the stream was ended by the script with or right after this batch
 	code   codes.Code
+
+	stalled bool // write: the (correct) answer was delayed beyond the client's request timeout
 }
 
 type latency struct{ write, read, list, scan time.Duration }
@@ -223,6 +226,7 @@ type fakeCase struct {
 	stored     map[int64][]string // per shard, sorted in key order
 	lat        map[int64]latency
 	poison     map[string]*inject // at(opId, shard) -> failure
+	stall      time.Duration
 	chunk      int
 	log        []*rpcRec
 	violations []string
@@ -433,6 +437,11 @@ func (n *node) WriteStream(stream proto.OxiaClient_WriteStreamServer) error {
 		}
 		in := fc.take(mdShard, rec.ops)
 		fc.sleep(fc.latOf(mdShard).write, stream.Context().Done())
+		if in != nil && in.mode == modeStall {
+			rec.stalled = true
+			fc.sleep(fc.stallFor(), stream.Context().Done())
+			in = nil
+		}
 		if in != nil && in.mode != modeAfter {
 			rec.failed, rec.killed, rec.code = true, true, in.code
 			fc.record(rec)
@@ -451,6 +460,12 @@ func (n *node) WriteStream(stream proto.OxiaClient_WriteStreamServer) error {
 			return statusOf(in)
 		}
 	}
+}
+
+func (fc *fakeCase) stallFor() time.Duration {
+	fc.mu.Lock()
+	defer fc.mu.Unlock()
+	return fc.stall
 }
 
 func (fc *fakeCase) latOf(shard int64) latency {
